@@ -28,9 +28,9 @@ ERR = {"KeyError": 1, "TypeError": 2, "UnexpectedTypeError": 3, "ValueError": 4,
        "RuntimeError": 6}
 
 # File values by path form
-ABSOLUTE = ["/aasx/files/a.pdf", "/a.pdf", "/b.txt", "/aasx/a.pdf", "/docs/Manual v1.pdf", "/c", "/d.e.f"]
+ABSOLUTE = ["/aasx/files/a.pdf", "/a.pdf", "/b.txt", "/aasx/a.pdf", "/docs/Manual v1.pdf", "/c", "/d.e.f", "/docs/t:1.pdf"]
 CASEPAIR = ["/A.pdf", "/aasx/files/A.PDF"]                      # collide with ABSOLUTE after normalisation
-RELATIVE = ["a.pdf", "files/a.pdf", "./b.txt", "../a.pdf", "x/../c", "../docs/r.bin"]
+RELATIVE = ["a.pdf", "files/a.pdf", "./b.txt", "../a.pdf", "x/../c", "../docs/r.bin", "files/t:2.txt"]
 URIS = ["http://example.org/a.pdf", "file:///a.pdf", "urn:x:y", "mailto:a@b"]
 NETPATH = ["//host/a.pdf", "//a.pdf"]
 INVALID = ["/a.", "/x//y.pdf", "/a/", "/q?.pdf", "../../up.pdf"]   # not legal OPC part names when stored
@@ -711,7 +711,7 @@ def oracle(case, res):
                     coll = rp is not None and len(stored_refs.get(rp.lower(), ())) > 1
                     sig = ("C08:files:same-part-name-different-files" if len(same) > 1 else
                            "C08:files:names-equal-up-to-case" if coll else
-                           "C08:files:not-extracted@" + re.sub(r"\d+", "", pos))
+                           "C08:files:not-extracted@" + ([x for x in p if isinstance(x, str)] or ["?"])[-1])
                     fails.append((sig, f"File {i}:{pos} named stored file {v!r}; after reading it names {v1!r} = "
                                        f"{'nothing' if got is None else 'other bytes/content type'} in the receiving container"))
             elif v1 != v and not (v1 is not None and v1 in F1):
